@@ -13,15 +13,33 @@ import (
 // absolute terms sum_i w_i |x_i|^d, i.e. they bound rounding only; the rules
 // are exact on the class so there is no truncation error).
 const (
-	tolLegendreMoment = 1e-13 // observed worst 1.4e-15
+	tolLegendreMoment = 1e-13 // degrees <= 40; grows as d/40 above (node rounding enters as d*eps); observed worst 1.5e-14 at d = 200
 	tolLegendreSum    = 2e-14 // sum of weights vs b-a
-	tolHermiteTight   = 2e-13 // n <= 199 except the four n listed in hermiteLooseN (observed worst 4.5e-15)
-	tolHermiteLoose   = 1e-9  // n in {21,23,25,27} and n >= 200 (observed worst 2.9e-11, see NOTES.md)
+	tolHermiteTight   = 2e-13 // see hermiteTol (observed worst 9e-15)
+	tolHermiteLoose   = 1e-9  // see hermiteTol (observed worst 2.9e-11, see NOTES.md)
 	tolNodeSymmetry   = 4e-15 // |x_i + x_{n-1-i} - (a+b)| relative to |a|+|b|
-	maxMomentDegree   = 40
 )
 
-var hermiteLooseN = map[int]bool{21: true, 23: true, 25: true, 27: true}
+func legendreTol(d int) float64 {
+	switch {
+	case d == 0:
+		return tolLegendreSum
+	case d <= 40:
+		return tolLegendreMoment
+	}
+	return tolLegendreMoment * float64(d) / 40
+}
+
+// hermiteTol: the tabulated rules for odd n in 21..199 have outermost weights that are only
+// accurate to about 1e-11 relative (absolute error far below 1e-100), which shows in the moments of
+// degree above n; the rows for n >= 200 and the asymptotic branch are accurate to 1e-11 overall.
+// Everything else is accurate to a few ulps.
+func hermiteTol(n, d int) (tol float64, class string) {
+	if n >= 200 || (n%2 == 1 && n >= 21 && d > n) {
+		return tolHermiteLoose, "loose"
+	}
+	return tolHermiteTight, "tight"
+}
 
 // legendreNs: the design's quick subset {1..40, 99..102, 150, 299, 300} costs almost nothing, so
 // both tiers run every n in 1..300 (the n=26 table typo shows why every row matters).
@@ -29,14 +47,22 @@ func legendreNs(g *vlib.G) []int { return vlib.Ints(1, 300) }
 
 func hermiteNs(g *vlib.G) []int { return vlib.Ints(1, 300) }
 
-var legendreIntervals = [][2]float64{{-1, 1}, {0, 1}, {-3, 5}}
-var legendreIntervalsThorough = [][2]float64{{-1, 1}, {0, 1}, {-3, 5}, {-10, -9.5}, {0, 1024}}
+var legendreIntervals = [][2]float64{{-1, 1}, {0, 1}, {-3, 5}, {-10, -9.5}, {0, 1024}, {-5, 0}, {1, 3}, {-1. / 1024, 1. / 1024}}
+
+// maxMomentDegree is the highest monomial degree evaluated (the rules are exact up to 2n-1).
+func maxMomentDegree(tier string) int {
+	if tier == "thorough" {
+		return 200
+	}
+	return 100
+}
 
 func genLegendre(g *vlib.G) {
 	for _, n := range legendreNs(g) {
-		for _, iv := range vlib.Pick(g, legendreIntervals, legendreIntervalsThorough) {
+		for _, iv := range legendreIntervals {
 			n, a, b := n, iv[0], iv[1]
-			g.Case(fmt.Sprintf("n=%d [%g,%g]", n, a, b), func(t *vlib.T) { legendreCase(t, n, a, b) })
+			maxD := maxMomentDegree(g.Tier)
+			g.Case(fmt.Sprintf("n=%d [%g,%g]", n, a, b), func(t *vlib.T) { legendreCase(t, n, a, b, maxD) })
 		}
 	}
 }
@@ -62,7 +88,7 @@ func moments(x, w []float64, D int) (sum, abs []*big.Float) {
 	return sum, abs
 }
 
-func legendreCase(t *vlib.T, n int, a, b float64) {
+func legendreCase(t *vlib.T, n int, a, b float64, maxD int) {
 	x := make([]float64, n)
 	w := make([]float64, n)
 	for i := range x {
@@ -130,22 +156,25 @@ func legendreCase(t *vlib.T, n int, a, b float64) {
 	// Moments.
 	D := 2*n - 1
 	guard := 2*n <= 12 && b-a >= 1 && math.Abs(a) <= 5 && math.Abs(b) <= 5 // the first degree beyond the class must not be integrated exactly
-	if D > maxMomentDegree {
-		D = maxMomentDegree
+	if D > maxD {
+		D = maxD
 	}
 	top := D
 	if guard {
 		top = 2 * n
 	}
 	sum, abs := moments(x, w, top)
+	worst := 0.0
+	defer func() { t.Max("legendre_worst_defect_1e-18", int64(worst*1e18)) }()
 	for d := 0; d <= D; d++ {
 		want := ratToBig(ratMonomialIntegral(a, b, d))
-		tol := tolLegendreMoment
-		if d == 0 {
-			tol = tolLegendreSum
-		}
-		if e := bigRelErr(sum[d], want, abs[d]); !(e <= tol) {
+		tol := legendreTol(d)
+		e := bigRelErr(sum[d], want, abs[d])
+		if !(e <= tol) {
 			t.Failf("moment d=%d: sum w x^d = %s, integral = %s, relative defect %.3g > %g", d, sum[d].Text('g', 25), want.Text('g', 25), e, tol)
+		}
+		if d > 0 && e > worst {
+			worst = e
 		}
 		t.Count("moments_checked", 1)
 	}
@@ -160,7 +189,8 @@ func legendreCase(t *vlib.T, n int, a, b float64) {
 func genHermite(g *vlib.G) {
 	for _, n := range hermiteNs(g) {
 		n := n
-		g.Case(fmt.Sprintf("n=%d", n), func(t *vlib.T) { hermiteCase(t, n) })
+		maxD := maxMomentDegree(g.Tier)
+		g.Case(fmt.Sprintf("n=%d", n), func(t *vlib.T) { hermiteCase(t, n, maxD) })
 	}
 }
 
@@ -177,7 +207,7 @@ func hermiteMoment(d int) *big.Float {
 	return v
 }
 
-func hermiteCase(t *vlib.T, n int) {
+func hermiteCase(t *vlib.T, n int, maxD int) {
 	x := make([]float64, n)
 	w := make([]float64, n)
 	for i := range x {
@@ -188,11 +218,7 @@ func hermiteCase(t *vlib.T, n int) {
 	if n > 200 {
 		branch = "asymptotic"
 	}
-	tol := tolHermiteTight
-	if hermiteLooseN[n] || n >= 200 {
-		tol = tolHermiteLoose
-		branch += "-loose"
-	}
+	tol, _ := hermiteTol(n, 2*n-1)
 	t.Outcome(fmt.Sprintf("%s n%%2=%d", branch, n%2))
 	t.Nontrivial()
 	t.Count("rule_nodes", int64(n))
@@ -216,18 +242,29 @@ func hermiteCase(t *vlib.T, n int) {
 	}
 	D := 2*n - 1
 	guard := 2*n <= 16
-	if D > maxMomentDegree {
-		D = maxMomentDegree
+	if D > maxD {
+		D = maxD
 	}
 	top := D
 	if guard {
 		top = 2 * n
 	}
 	sum, abs := moments(x, w, top)
+	worst := map[string]float64{}
+	defer func() {
+		for class, e := range worst {
+			t.Max("hermite_"+class+"_worst_defect_1e-18", int64(e*1e18))
+		}
+	}()
 	for d := 0; d <= D; d++ {
 		want := hermiteMoment(d)
-		if e := bigRelErr(sum[d], want, abs[d]); !(e <= tol) {
+		e := bigRelErr(sum[d], want, abs[d])
+		tol, class := hermiteTol(n, d)
+		if !(e <= tol) {
 			t.Failf("moment d=%d: sum w x^d = %s, integral = %s, relative defect %.3g > %g", d, sum[d].Text('g', 25), want.Text('g', 25), e, tol)
+		}
+		if e > worst[class] {
+			worst[class] = e
 		}
 		t.Count("moments_checked", 1)
 	}
@@ -269,9 +306,9 @@ func genFixed(g *vlib.G) {
 	// on [c,inf) the integrand s^k/(1+s)^(k+2), s=x-c, becomes t^k on [0,1];
 	// on (-inf,c] the integrand s^k/(1+s)^(k+2), s=c-x, becomes (1-t)^k. Integral 1/(k+1).
 	for _, side := range []int{+1, -1} {
-		for _, c := range []float64{0, 2, -1.5} {
-			for k := 0; k <= 3; k++ {
-				for _, n := range []int{1, 2, 3, 5, 8, 16, 33, 100, 101, 200} {
+		for _, c := range []float64{0, 2, -1.5, 0.125, -64} {
+			for k := 0; k <= 5; k++ {
+				for _, n := range append(vlib.Ints(1, 40), 63, 64, 99, 100, 101, 102, 150, 200, 255, 256, 300) {
 					if k > 2*n-1 {
 						continue
 					}
@@ -359,7 +396,7 @@ func genFixed(g *vlib.G) {
 	}
 	// (c) Finite interval through Fixed: default rule, explicit Legendre (single-location
 	// path) and a wrapper exposing only FixedLocations.
-	for _, n := range []int{1, 2, 3, 4, 7, 20, 21, 100, 101} {
+	for _, n := range append(vlib.Ints(1, 60), 99, 100, 101, 102, 199, 200, 300) {
 		n := n
 		g.Case(fmt.Sprintf("finite n=%d", n), func(t *vlib.T) {
 			a, b := -3.0, 5.0
